@@ -28,8 +28,9 @@ SIG_DUP = 'C10:nrt-two-pending-wakeups-after-reschedule'
 SIG_NEG = 'C10:task-before-score-start-not-sendable-in-nrt'
 SIG_INF = 'C10:nrt-inf-delta-rescheduled'
 SIG_NAN = 'C10:rt-nan-delta-stalls-clock'
-# yielded values the clocks do not re-schedule on (inf = never; nan; not a number) / that are a zero delta
-HANG_KINDS = ['inf', 'none', 'true', 'false', 'str', 'list', 'tuple', 'nan']
+# yielded values the clocks do not re-schedule on (inf = never; nan; not an int/float: None, str ..., but also Fraction, Decimal, other
+# numbers.Real types such as numpy scalars, complex) / that are a zero delta
+HANG_KINDS = ['inf', 'none', 'true', 'false', 'str', 'list', 'tuple', 'nan', 'frac', 'dec', 'real', 'cplx']
 ZERO_KINDS = ['nzero', 'fzero', 'izero']
 NREQ = 21
 
@@ -540,6 +541,52 @@ LIFE_PROG = {'tempos': [], 'bodies': [
     'nconds': 1, 'nflows': 0, 'mseed': 5, 'tail': '0', 'shared': [], 'order_clocks': ['S']}
 
 
+# the same task object pending on two clocks at once: a routine paused and resumed (or played, or reset and played) on ANOTHER clock
+# while its wake-up on the first is still pending, one Function scheduled on two clocks.  Every clock serves its own wake-up.
+# Coarse grid (wake-ups of one routine performed by different threads are never closer than 1/8 s): every chain of wake-ups has
+# a period of 1/2 s (or 1 s); the home chain runs on multiples of 1/2 s, the controller acts at 1/8, 3/4, 11/8 s (1/8, 1/4, 3/8
+# modulo 1/2) and a chain started by the controller keeps that offset.  Victims seed themselves (no shared generator).
+TWO_PROG = {'tempos': ['2'], 'bodies': [
+    [['P', 1, ['T', 0]], ['P', 2, 'S'], ['Y', '1/8'], ['pause', 1], ['resumeon', 1, 'S'], ['sch2', [['S', '1/2'], [['T', 0], '1']]],
+     ['Y', '5/8'], ['pause', 2], ['playon', 2, ['T', 0]], ['Y', '5/8'], ['replayon', 1, 'S']],
+    [['seed', 11], ['cb', 0], ['S', '0', [['m', 1]]], ['Y', '1'], ['cb', 0], ['S', '0', [['m', 2]]], ['Y', '1'], ['D', 0], ['S', '0', [['m', 3]]], ['Y', '1'], ['S', '0', [['m', 4]]]],
+    [['seed', 12], ['S', '0', [['m', 5]]], ['Y', '1'], ['D', 1], ['S', '0', [['m', 6]]], ['Y', '1'], ['S', '0', [['m', 7]]], ['Y', '1'], ['S', '0', [['m', 8]]]]],
+    'nconds': 0, 'nflows': 0, 'mseed': 1, 'tail': '0', 'shared': []}
+
+
+def gen_two_prog(rng):
+    tempo = rng.choice(['1', '2'])
+    d = '1/2' if tempo == '1' else '1'          # 1/2 s on the TempoClock, 1/2 s or 1 s on SystemClock
+    nv = rng.choice([1, 1, 2])
+    homes = [rng.choice(['S', ['T', 0]]) for _ in range(nv)]
+    others = [['T', 0] if h == 'S' else 'S' for h in homes]
+    root = [['P', j + 1, homes[j]] for j in range(nv)]
+    for gap in ['1/8', '5/8', '5/8'][:rng.randint(1, 3)]:
+        root.append(['Y', gap])
+        j = rng.randrange(nv)
+        r = rng.random()
+        if r < 0.35:
+            root += [['pause', j + 1], ['resumeon', j + 1, others[j]]]
+        elif r < 0.55:
+            root += [['pause', j + 1], ['playon', j + 1, others[j]]]
+        elif r < 0.75:
+            root += [['replayon', j + 1, others[j]]]
+        else:
+            root += [['sch2', [['S', '1/2'], [['T', 0], d]]]]
+    bodies = [root]
+    for j in range(nv):
+        body = [['seed', 20 + j]]
+        for i in range(rng.randint(3, 4)):
+            if rng.random() < 0.4:
+                body.append(['cb', 0])
+            if rng.random() < 0.4:
+                body.append(['D', rng.randrange(NREQ)])
+            body.append(['S', rng.choice(['0', '1/8']), [['m', 10 * j + i]]])
+            body.append(['Y', d])
+        bodies.append(body)
+    return {'tempos': [tempo], 'bodies': bodies, 'nconds': 0, 'nflows': 0, 'mseed': rng.randint(0, 99), 'tail': '0', 'shared': []}
+
+
 def gen_life_prog(rng):
     tempo = rng.random() < 0.4
     cl = ['T', 0] if tempo else 'S'
@@ -608,8 +655,8 @@ def check_post(c, p, o, mode):
 
 
 def quant_part(ctx, c):
-    cases = [QUANT_PROG, LIFE_PROG] + [gen_quant_prog(ctx.rng) for _ in range(ctx.n(45, 400))] + \
-            [gen_life_prog(ctx.rng) for _ in range(ctx.n(45, 400))]
+    cases = [QUANT_PROG, LIFE_PROG, TWO_PROG] + [gen_quant_prog(ctx.rng) for _ in range(ctx.n(45, 400))] + \
+            [gen_life_prog(ctx.rng) for _ in range(ctx.n(45, 400))] + [gen_two_prog(ctx.rng) for _ in range(ctx.n(8, 48))]
     A, B = par([lambda: impl_tagged(ctx, 'qA', {'cases': cases}, 'nrt', hashseed='77'),
                 lambda: impl_tagged(ctx, 'qB', {'cases': cases}, 'nrt', hashseed='88')])
     R = run_rt(ctx, cases, k=5)
@@ -630,7 +677,7 @@ def quant_part(ctx, c):
                 c.count('quant:' + v[3])
         for b_ in p['bodies']:
             for act in b_:
-                if act[0] in ('stop', 'reset', 'replay', 'play2', 'raise', 'cbs'):
+                if act[0] in ('stop', 'reset', 'replay', 'play2', 'raise', 'cbs', 'resumeon', 'playon', 'replayon', 'sch2'):
                     c.count('life:' + act[0])
         check_post(c, p, a, 'nrt')
         for text in a['stream_errors']:
@@ -648,9 +695,25 @@ def quant_part(ctx, c):
         d = diff_runs(p, a, r, False)
         if d is None and a['errors'] != r['errors']:
             d = 'errors differ: %s vs %s' % (a['errors'], r['errors'])
+        acts_ = {act[0] for b_ in p['bodies'] for act in b_}
+        if d and acts_ & {'resumeon', 'playon', 'replayon', 'sch2'}:
+            # wake-ups of one routine performed by two threads 1/8 s apart: under heavy machine load their order can flip; run it once more alone
+            r2 = run_rt(ctx, [p], k=9)[0]
+            if 'fatal' not in r2 and r2.get('completed'):
+                r2 = dict(r2, vals=[v for v in r2['vals'] if not (v[0] == 'q' and v[3] == 'not-early')])
+                d2 = diff_runs(p, a, r2, False)
+                if d2 is None and a['errors'] == r2['errors']:
+                    c.count('two-clock: differed once, agreed when run again alone (machine load)')
+                    d = None
+                else:
+                    r = r2
         if d:
-            c.failures.append(Failure('correspondence', 'TempoClock quantisation API called from inside routines: the RT run under jitter differs from the NRT run: %s. Program: %s'
-                                      % (d[:1500], json.dumps(p)), theorem='rt_nrt_agree', found_input=True,
+            fam = ('a task pending on two clocks at once (routine resumed / played on another clock, one Function scheduled on two clocks)'
+                   if acts_ & {'resumeon', 'playon', 'replayon', 'sch2'} else
+                   'routine life cycle (stop / reset / replay / exceptions)' if acts_ & {'stop', 'reset', 'replay', 'play2', 'raise', 'cbs'} else
+                   'TempoClock quantisation API called from inside routines')
+            c.failures.append(Failure('correspondence', '%s: the RT run under jitter differs from the NRT run: %s. Program: %s'
+                                      % (fam, d[:1500], json.dumps(p)), theorem='rt_nrt_agree', found_input=True,
                                       replay={'program': p, 'nrt_vals': a['vals'], 'rt_vals': r['vals'], 'nrt_events': a['events'],
                                               'rt_events': r['events'], 'difference': d,
                                               'how': 'SC3_MODE=nrt|rt PYTHONPATH=$SC3_REPO:/verif/harness python harness/impl/c10_script.py in.json out.json'}))
